@@ -158,3 +158,16 @@ package sweep
 //@   site call NewLinearFeeFunction: assert arg(maxFeeRate) == retn(MaxFeeRateAllowed, 0) && retn(MaxFeeRateAllowed, 1) == nil &&
 //@        arg(confTarget) == ret(calcCurrentConfTarget) && arg(startingFeeRate) == req.StartingFeeRate
 //@   site call calcCurrentConfTarget: assert arg(deadline) == req.DeadlineHeight
+//@
+//@ func prepareSweepTx
+//@   props C18
+//@   loop * havoc
+//@   site return nil: assert 0 <= ret(fee) && ret(fee) <= 2100000000000000 && 0 <= requiredOutput && requiredOutput <= 2100000000000000 &&
+//@        0 <= totalInput && totalInput <= 2100000000000000 ==>
+//@        requiredOutput + ret(fee) <= totalInput &&
+//@        changeAmt == totalInput - requiredOutput - ret(fee) &&
+//@        (changeAmt >= changeFloor ==> result0 == ret(fee)) &&
+//@        (changeAmt <  changeFloor ==> result0 == ret(fee) + changeAmt && requiredOutput != 0) &&
+//@        result0 + requiredOutput + ite(changeAmt >= changeFloor, changeAmt, 0) == totalInput
+//@   site store TxOut.Value: assert value == changeAmt && changeAmt >= changeFloor
+//@   site call DustLimitForSize: assert arg(0) == len(changePkScript.DeliveryAddress)
